@@ -99,8 +99,16 @@ func (nfc *NfcSession) GetChallenge(length int) (out []byte, err error) {
 	return rapdu.Data, nil
 }
 
+// Le for the authentication commands (INTERNAL/GENERAL AUTHENTICATE)
+// NB maxLe is the caller's preferred READ size and may be smaller than an authentication
+//    response (e.g. a 256 byte RSA signature, or a 133 byte P-521 public key), so never ask
+//    for less than the short-length maximum (256, encoded as 00)
+func (nfc *NfcSession) authLe() int {
+	return max(nfc.maxLe, 256)
+}
+
 func (nfc *NfcSession) InternalAuthenticate(data []byte) (out []byte, err error) {
-	var cApdu *CApdu = NewCApdu(0, INS_INTERNAL_AUTHENTICATE, 0x00, 0x00, data, nfc.maxLe)
+	var cApdu *CApdu = NewCApdu(0, INS_INTERNAL_AUTHENTICATE, 0x00, 0x00, data, nfc.authLe())
 
 	var rApdu *RApdu
 
@@ -149,7 +157,7 @@ func (nfc *NfcSession) GeneralAuthenticate(commandChaining bool, data []byte) ([
 		cla = 0x10
 	}
 
-	cApdu := NewCApdu(byte(cla), INS_GENERAL_AUTHENTICATE, 0x00, 0x00, data, nfc.maxLe)
+	cApdu := NewCApdu(byte(cla), INS_GENERAL_AUTHENTICATE, 0x00, 0x00, data, nfc.authLe())
 
 	rApdu, err := nfc.DoAPDU(cApdu, "General Authenticate")
 	if err != nil {
